@@ -290,11 +290,12 @@ ADDENDA = {
     "C02": "Chunk / array sizes N in {1..8,10,12} with lengths up to 25, first_mut / last_mut / split_first_mut / "
            "split_last_mut included.",
     "C03": "A second string family over the characters at the ends of every encoded width (lead bytes 7F C2 DF E0 ED EE "
-           "EF F0 F4, continuation bytes 80 and BF).",
+           "EF F0 F4, continuation bytes 80 and BF) and a third with one character for every possible lead byte C2..F4.",
     "C04": "Pair families with byte-anagram characters and width-edge characters; recorded calls also use char patterns, "
            "needles of 7..65 bytes with near misses, and one-byte needles in 8..40-byte haystacks over bytes differing in "
            "one bit.  Long family: k false candidates before the occurrence for k in 0..40 and around 64 / 128 / 256, "
-           "occurrences beyond offset 255, needles of 12 / 13 / 255..257 bytes with a near miss.",
+           "occurrences beyond offset 255, needles of 12 / 13 / 255..257 bytes with a near miss; self-overlap family (every {a,b} "
+           "needle of 8 bytes and distinct-tail needles, preceded by a proper prefix / followed by a proper suffix).",
     "C05": "Pattern families with byte-anagram and width-edge characters; recorded calls with patterns of 7..65 bytes "
            "and 8..40 repetitions.  Long family: k repetitions at either end for k in 0..40 and around 64 / 128 / 256, "
            "patterns of 12 / 13 / 255..257 bytes, also evaluated in const items.",
